@@ -8,6 +8,12 @@ G  spec/Gen_Synch.tla: every decomposition with its expected results, replayed o
 X  lib/c13x.py: distributed matrices (spec/SynchMat.tla model checked, spec/Gen_GlobalMat.tla -> harness/c13_gmat.cpp), blocked / tuple
    vectors, scalar reductions, *_async variants, Splitter, filters (spec/Gen_SynchB.tla) and Muxer hierarchies (spec/Gen_Muxer.tla)
    -> harness/c13_gvec.cpp; Global::Transfer across process layers with ghost processes (spec/Gen_XferLayers.tla -> harness/c13_xfer.cpp).
+A  lib/c13_mirror.py: the MIRROR ASSEMBLY of the control layer (kernel/assembly/mirror_assembler.hpp, control/asm/gate_asm.hpp, muxer_asm.hpp,
+   splitter_asm.hpp).  spec/MirrorAsm.tla defines the dof mirror of a halo / patch mesh part for a space (dofs on the part's entities: vertices
+   first, then edges, faces, cells; per entity in local order; signatures of RefElement.tla, numbering of DofMap.tla) and the predicates
+   GateOrder/GateAgree/GateComplete, MuxOrder/MuxPairing, SplOrder/SplPairing, the values of the real collective operations on an
+   interpolated affine function, and the component-wise combination for tuple spaces; harness/c13_mirrorasm.cpp runs the real
+   PartiDomainControl + asm_gate/asm_muxer/asm_splitter/build_*_tuple on MPI ranks (owner maps enumerated by TLC), TLC judges the dumps.
 R  spec/Renum.tla: every generator also enumerates a LOCAL renumbering per rank (identity, reversal, rotation, ...; all permutations of
    three dofs in the thorough tier), so vector mirrors, row/column mirrors of the matrix buffers, splitter and muxer mirrors are not
    monotone in general; all expected values are emitted in the permuted local numbering by the specification.
@@ -242,9 +248,23 @@ def run(chk):
                 "Global::Transfer over a Muxer for every composition of 1..4 (thorough 6) ranks into sibling groups x parent choice (first/last) x "
                 "parent patches x child patches (renumbered) x fine decompositions: restriction, truncation (distinct matrices) and prolongation "
                 "of exact-integer vectors, parents through rest/trunc/prol, GHOST processes through rest_send/trunc_send/prol_recv, a transfer "
-                "without muxer on one-rank groups and a clone(); expected = the single-process result (law: equals the documented layer-wise combination)")
+                "without muxer on one-rank groups and a clone(); expected = the single-process result (law: equals the documented layer-wise combination).  "
+                "Mirror assembly (lib/c13_mirror.py, spec/MirrorAsm.tla): the real Control::Domain::PartiDomainControl on 2..4 (thorough ..8) MPI ranks over "
+                "2x2 / 4x4 / 3x2 / 4x2 quadrilateral, triangulated and 2x2x1 / 2x2x2 hexahedral base meshes, single-layered with base levels (base splitter) "
+                "and layered 4->2->1, 4->1, 6->3->1, 6->2->1, 8->4->2->1, 8->2->1; owner maps = every set partition of the four squares into 2..4 patches and every "
+                "labelling of four one-square patches (which patches are siblings; incl. disconnected parent patches) as enumerated by TLC "
+                "(spec/PartitionGen.tla; quick: a third of them), seeded random owner maps on 4x4, and the shipped partitioners; for Lagrange-1/2/3, "
+                "discontinuous-0/1, Crouzeix-Raviart/Rannacher-Turek, Bernstein-2 on every virtual level: asm_gate, asm_muxer, asm_splitter mirrors "
+                "== MirrorSpec(mesh part) (vertices, edges, faces, cells; entity order of the target set; local dof order), neighbour mirrors denote the "
+                "same geometric functionals in the same order and all shared ones, child / patch mirror entry i is the parent dof of child dof i, "
+                "identity mirrors on the child side, virtual level structure; gate.sync_0, muxer.join/split/join_send/split_recv, splitter.split/join "
+                "of the interpolant of 1 + x + 64y + 4096z reproduce the barycentre values (exactly, x number of holders where the operation sums); "
+                "system gate/muxer/splitter of 2- and 3-component tuple spaces = component-wise combination")
     chk.assumptions = ["gate-level cases are built directly from the decomposition: the BUFFER order of every mirror pair is the ascending global dof order "
                        "(the local numbering of each patch is enumerated: identity/reversal/rotation/...), the fine and the parent patches of the layered "
-                       "transfer cases are numbered ascending (their child patches are renumbered); the control layer (partitioning, "
-                       "gate/muxer assembly, multi-layered hierarchies) is exercised through the poisson application runs only",
+                       "transfer cases are numbered ascending (their child patches are renumbered); the partitioners, the multi-layered "
+                       "hierarchies and the discretise-and-solve chain of the control layer are exercised through the poisson application runs, the mirror "
+                       "assembly (asm_gate / asm_muxer / asm_splitter / build_*_tuple) through the mirror-assembly route on small partitioned meshes; values of "
+                       "the collective operations are compared for the families whose node functionals of an affine function are barycentre values "
+                       "(Lagrange-1/2, discontinuous-0, Crouzeix-Raviart/Rannacher-Turek), the other families structurally",
                        "OpenMPI in one node with oversubscription; arrival orders in the real runs are forced through hook H4, all orders only in the model"]
